@@ -5,7 +5,7 @@ STREAM_NOTE = ("Trusted base: the reference executor in vlib/monitor.py (semanti
                "the per-class table of permitted adjoint passes read from the docstrings, and Hypothesis "
                "as the source of randomness. Exploration, not proof: n<=10 (quick) / n<=24 (thorough) "
                "exhaustively, sampled to n=160 / 400.")
-STREAM_TECH = "property-based testing: exhaustive small boxes + Hypothesis-generated configs + cold large-n probes + late-finalisation histories + deep-repetition probes + ordered sibling sequences in pristine processes, executed by a reference executor (validity-predicate oracle), collect-then-shrink"
+STREAM_TECH = "property-based testing: exhaustive small boxes + Hypothesis-generated configs + cold large-n probes + late-finalisation histories + deep-repetition probes + ordered sibling sequences in pristine processes + driver styles (next, iter, one for-loop per phase) and constructor call styles (keyword, defaults omitted, int / numpy.float64 costs), executed by a reference executor (validity-predicate oracle), collect-then-shrink"
 
 CHECKS = {
     "C01": dict(design_ref="DESIGN.md section 4 C01, 2.2", technique=STREAM_TECH, note=STREAM_NOTE,
@@ -38,7 +38,7 @@ CHECKS.update({
                 technique="property-based testing against a reference model: exhaustive optimal search over mixed schedules + independent DP; dense (n,s) grid to n=64/150, planner scan to n=220/420 (candidates confirmed by streams), boundary probe sequence in a pristine interpreter and cold many-units probes (336..450 units, each alone in a fresh interpreter); metamorphic RAM vs DISK relation",
                 text="Mixed forward-step totals compared with the optimum over all schedules whose units hold a restart checkpoint or one step's adjoint data (search n<=8/11, DP to 64/300); RAM and DISK streams must be equal up to the label; helper optimal_steps_mixed must agree."),
     "C07": dict(design_ref="DESIGN.md section 4 C07, 3.3", note=ORACLE_NOTE,
-                technique="property-based testing: differential against exhaustive hierarchical search and independent H-Revolve/Disk-Revolve DPs, plus the metamorphic cost relations of the statement; asymmetric dyadic cost vectors by construction, plus one-decimal and 2**(+-40)-rescaled cost units; dense DP grids and cost-table scan (candidates confirmed by streams)",
+                technique="property-based testing: differential against exhaustive hierarchical search and independent H-Revolve/Disk-Revolve DPs, plus the metamorphic cost relations of the statement; asymmetric dyadic cost vectors by construction, plus one-decimal and 2**(+-40)-rescaled cost units; dense DP grids and cost-table scan (candidates confirmed by streams); the same cost vectors passed as Python ints next to floats, as numpy.float64, by keyword and with defaults omitted",
                 text="Stream cost (uf, ub, wd, rd weighted counts) of HRevolve / Revolve / DiskRevolve equals the optimum from exhaustive search (n<=7/9) and DP (n to 64/300) for asymmetric cost vectors; monotonicity in disk units, DiskRevolve<=Revolve, Periodic>=DiskRevolve checked on every group."),
     "C09": dict(design_ref="DESIGN.md section 4 C09", technique=STREAM_TECH + "; flag model from the documented per-class pass table; pass k compared tuple-for-tuple with pass 1 and re-executed", note=STREAM_NOTE,
                 text="is_running / is_exhausted read before the first next() and after every action, streams driven 3 next() calls past their end, multi-pass classes run for 1..3 passes with each repeat compared with pass 1 and executed by the reference executor."),
@@ -49,13 +49,13 @@ CHECKS.update({
                 technique="property-based testing: metamorphic relation across all RAM/DISK splits of one (n, trajectory, s) group + harness-side stack tracking and tie-independent traffic optimum",
                 text="All splits of s produce shape-identical streams; each stack position keeps one label; RAM-labelled positions <= declared; DISK accesses equal total minus the k largest per-position access counts. Exhaustive n<=18/26, groups to n=120/400."),
     "C16": dict(design_ref="DESIGN.md section 4 C16", note="numba cannot be installed offline: the tabulated planner is run by CPython+NumPy with the unmodified source (module attribute mixed.numba forced to a sentinel); the compiled artefact itself is not exercised.",
-                technique="property-based testing: differential between the tabulated and the memoised planner (every table entry of the square table N=100/200 and of the tall-narrow table n<=320/640, s<=40/64, exhaustive) and between the streams produced on both code paths, incl. cold many-units schedules (336/450 units) alone in a fresh interpreter",
+                technique="property-based testing: differential between the tabulated and the memoised planner (every table entry of the square table N=100/200 and of the tall-narrow table n<=320/640, s<=40/64, exhaustive) and between the streams produced on both code paths, incl. cold many-units schedules (336/450 units) alone in a fresh interpreter, and ordered histories of schedules on both paths in one pristine process (descending / ascending / zig-zag sizes, drawn permutations)",
                 text="Every entry (kind, length, cost) of mixed_steps_tabulation(N, N-1) for N=60/160 equals mixed_step_memoization; Mixed streams with the tabulated path forced equal the default streams by value and are executable."),
     "C17": dict(design_ref="DESIGN.md section 4 C17", note="Documented domain computed by the harness from the constructors/docstrings (DESIGN 2.1); negative unit counts and non-positive costs are outside the statement and never generated.",
-                technique="property-based testing: exhaustive box over valid AND invalid constructor tuples with a domain-membership oracle; generated valid tuples to n=160/400; cold (pristine-process) large-n probes to n=1000/2000",
+                technique="property-based testing: exhaustive box over valid AND invalid constructor tuples with a domain-membership oracle; generated valid tuples to n=160/400; cold (pristine-process) large-n probes to n=1000/2000; ordered histories of valid constructions in one pristine process (max_n swept up / down / shuffled, rotations through the Revolve family)",
                 text="Valid tuples must construct and yield a complete stream (C02 completeness); invalid ones must raise at construction or at the first next(), never after an action. max_n in -1..8/16, all unit counts, all four storages, period -1..4."),
     "C18": dict(design_ref="DESIGN.md section 4 C18", note="Expected equality is computed from raw .args tuples and type identity; comparison with non-action objects is outside the statement.",
-                technique="property-based testing: field predicates on every emitted action + Hypothesis-generated actions and biased action pairs (==/!= truth table, repr round-trip, len/iter/in vs range); late-finalisation histories of the online classes",
+                technique="property-based testing: field predicates on every emitted action + Hypothesis-generated actions and biased action pairs (==/!= truth table, repr round-trip, len/iter/in vs range); late-finalisation histories of the online classes (up to 19 further Forwards); step indices far from the small range (multiples of sys.maxsize, neighbours of powers of two and ten, integers whose decimal text contains that of sys.maxsize)",
                 text="Emitted actions of a stream sweep (incl. numpy-integer actions of the tabulated Mixed planner) are checked for the field predicates and value semantics; generated pairs check == / != never raise and equal type+args identity, repr round-trips, len/iteration/membership enumerate the covered steps."),
     "C19": dict(design_ref="DESIGN.md section 4 C19", note=ORACLE_NOTE,
                 technique="property-based testing: closed-form period oracle in exact rationals, same m required for 6-14 values of n per cost vector; per-segment Revolve optimum via Griewank-Walther; integer-ratio staircase, extreme cost ratios (2^30:1) and rescaled units (x2^+-40)",
@@ -69,7 +69,7 @@ CHECKS.update({
                 text="Call histories of next(), finalize(k) (k from -1,0,1,told-1,told,told+1,max_n,random) and observer reads on one object of any class: outcome (success/ValueError/RuntimeError), post-state and 'next action is EndForward' per the reference model; rejected calls must leave observers and the subsequent stream (vs. twin) unchanged."),
     "C15": dict(design_ref="DESIGN.md section 4 C15, 3.4", engine="hypothesis-stateful",
                 note="Trusted base: vlib/golden.py (fresh interpreter, forked pristine child per config) as the oracle; every history itself runs in a child forked from a pristine worker. Bounded histories (40/80 rules, <=6 live objects).",
-                technique="model-based stateful testing: Hypothesis RuleBasedStateMachine interleaving up to 6 live schedules, observer reads and memo-table pokes; sibling/variant configs and an exhaustive ordered sibling-pair sweep (A,B / B before A / A,B,A), each history in a pristine forked child; differential against the stream of the same config in a fresh interpreter; the same configs in fresh interpreters with other PYTHONHASHSEED values (metamorphic: process-level hash order); delta-debugging minimiser",
+                technique="model-based stateful testing: Hypothesis RuleBasedStateMachine interleaving up to 6 live schedules, observer reads and memo-table pokes; sibling/variant configs and an exhaustive ordered sibling-pair sweep (A,B / B before A / A,B,A), each history in a pristine forked child; differential against the stream of the same config in a fresh interpreter; the same configs in fresh interpreters with other PYTHONHASHSEED values (metamorphic: process-level hash order); the same parameters written in other call styles; schedules abandoned half-way, dropped and collected before the next one is built; id()-reuse probes (a schedule built at the address of a dropped one); delta-debugging minimiser",
                 text="Histories create/advance/observe/poke/finish over up to 6 live objects of all classes; every object's recorded stream must equal the stream the same config produces in a fresh interpreter (prefix-equal if stopped early)."),
 })
 
